@@ -103,6 +103,10 @@ def apply_op(A, edges, verts, op, a, b, c, S, L):
         labs = [LABELS[i] for i in range(L) if (c >> i) & 1]
         labs = [l for l in labs if not any(v == a and l2 == l and w != b for (v, w, l2) in edges)]
         new = [l for l in labs if (a, b, l) not in edges]
+        if not new:
+            # "adding multiple edges" means at least one: an empty label list is not an operation of the property (the library records a
+            # label-less adjacency for it, which recurrent() then counts as an edge -- noted in DESIGN.md, not claimed)
+            return
         A.add_edges([(a, b, new)], elist=True)
         for l in new:
             edges.add((a, b, l))
@@ -155,9 +159,35 @@ def c09_history(route, t, ops, S=3, L=2):
     return True
 
 
+def _shares_lists(d1, d2):
+    ids = {id(ls) for nb in d1.values() for ls in nb.values()}
+    return any(id(ls) in ids for nb in d2.values() for ls in nb.values())
+
+
 def c09_no_alias(route, t, S=3, L=2):
-    """representation invariant used by the inductive step: label lists of the out- and in-view are distinct objects"""
+    """representation invariant used by the inductive step: label lists of the out- and in-view are distinct objects; an automaton built from
+    a target->labels dictionary or from another automaton's outgoing view shares no label list with its source (otherwise a later add_edges
+    on one shows up in the other's outgoing view only)"""
     A = build_by_route(route, t, S, L)
+    if route == 1:
+        fsa = _fsa()
+        src = {v: {} for v in range(S)}
+        for v, nb in table_to_graph(t, S, L).items():
+            for l, w in nb.items():
+                src[v].setdefault(w, []).append(l)
+        keep = copy.deepcopy(src)
+        B1 = fsa.FSA(src, start_vertices=[0], graph_dict=False)
+        B2 = fsa.FSA(B1.out_dict, start_vertices=[0], graph_dict=False)
+        if _shares_lists(src, B1.out_dict) or _shares_lists(B1.out_dict, B2.out_dict) or _shares_lists(B1.in_dict, B2.in_dict):
+            return False
+        # behavioural form: adding a parallel edge to the copy leaves the source automaton and the caller's dictionary alone
+        e = [(v, w) for v, nb in src.items() for w in nb]
+        if e:
+            v, w = e[0]
+            before = (view_graph(B1), view_out(B1), view_in(B1))
+            B2.add_edges([(v, w, 'z')])
+            if (view_graph(B1), view_out(B1), view_in(B1)) != before or src != keep:
+                return False
     for v, nb in A.out_dict.items():
         for w, ls in nb.items():
             if w in A.in_dict and v in A.in_dict[w] and A.in_dict[w][v] is ls:
@@ -167,7 +197,12 @@ def c09_no_alias(route, t, S=3, L=2):
 
 def render_kbmag(trans, initial, S, L, spacing=0, interval=False):
     sp = ["", " ", "\n   "][spacing]
-    rows = ",".join(sp + "[" + ",".join(str(trans[v * L + l]) for l in range(L)) + "]" for v in range(S))
+    def row(v):
+        r = [trans[v * L + l] for l in range(L)]
+        if interval and len(r) >= 2 and all(r[i + 1] == r[i] + 1 for i in range(len(r) - 1)):
+            return "[%d..%d]" % (r[0], r[-1])          # GAP prints ranges this way also inside nested lists
+        return "[" + ",".join(str(x) for x in r) + "]"
+    rows = ",".join(sp + row(v) for v in range(S))
     names = ",".join(LABELS[:L])
     acc = f"[1..{S}]" if interval else "[" + ",".join(str(i + 1) for i in range(S)) + "]"
     return ("_RWS.wa := rec(\n isFSA := true,\n alphabet := rec(\n type := \"identifiers\",\n size := %d,\n format := \"dense\",\n names := [%s]\n ),\n"
@@ -402,8 +437,8 @@ def ref_accepted(t, S, L, length, maxlen, start=None, end=None):
     return out
 
 
-def c06_accepted(t, length, maxlen, with_words, mode, state, S=2, L=2, renamed=False):
-    """mode 0: default start; 1: start_state=state; 2: end_state=state"""
+def c06_accepted(t, length, maxlen, with_words, mode, state, S=2, L=2, renamed=False, sv=0):
+    """mode 0: default start; 1: start_state=state; 2: end_state=state;  sv: the automaton's own (default) start vertex"""
     import numpy as np
     fsa = _fsa()
     if renamed:
@@ -411,10 +446,10 @@ def c06_accepted(t, length, maxlen, with_words, mode, state, S=2, L=2, renamed=F
         sw = {l: l for l in LABELS}
         sw['a'], sw['b'] = 'b', 'a'
         g = {v: {sw[l]: w for l, w in nb.items()} for v, nb in table_to_graph(t, S, L).items()}
-        A = fsa.FSA(g, start_vertices=[0])
+        A = fsa.FSA(g, start_vertices=[sv])
         A.rename_generators(sw, inplace=True)
     else:
-        A = fsa.FSA(table_to_graph(t, S, L), start_vertices=[0])
+        A = fsa.FSA(table_to_graph(t, S, L), start_vertices=[sv])
     rep = _rep(L)
     kw = {}
     if mode == 1:
@@ -428,9 +463,9 @@ def c06_accepted(t, length, maxlen, with_words, mode, state, S=2, L=2, renamed=F
         lens = range(length + 1) if maxlen else [length]
         want = []
         for n in lens:
-            want += [w for (w, s) in ref_language(t, S, L, n, 0) if s == state]
+            want += [w for (w, s) in ref_language(t, S, L, n, sv) if s == state]
     else:
-        want = ref_accepted(t, S, L, length, maxlen, start=(state if mode == 1 else None))
+        want = ref_accepted(t, S, L, length, maxlen, start=(state if mode == 1 else sv))
     want_words = sorted("".join(LABELS[x] for x in w) for w in want)
     if sorted(words) != want_words:
         return False
